@@ -1526,6 +1526,42 @@ impl FdlActiveStation {
     }
 }
 
+#[cfg(feature = "verif-hooks")]
+#[doc(hidden)]
+impl FdlActiveStation {
+    /// Verification hook: result of `next_gap_poll(current)` for a station `ts` with successor `ns`
+    /// and the given HSA.  `Some(a)` = poll address `a` next, `None` = end of the GAP sweep.
+    pub fn verif_next_gap_poll(ts: u8, ns: u8, hsa: u8, current: u8) -> Option<u8> {
+        let mut p = crate::fdl::Parameters::default();
+        p.address = ts;
+        p.highest_station_address = hsa;
+        let mut s = Self::new(p);
+        if ns != ts {
+            s.token_ring.set_next_station(ns);
+        }
+        match s.next_gap_poll(current) {
+            GapState::DoPoll { current_address } => Some(current_address),
+            GapState::Waiting { .. } => None,
+        }
+    }
+
+    /// Verification hook: name of the current FDL state (for replay files only).
+    pub fn verif_state_name(&self) -> &'static str {
+        match self.state {
+            State::Offline => "Offline",
+            State::PassiveIdle => "PassiveIdle",
+            State::ListenToken { .. } => "ListenToken",
+            State::ActiveIdle { .. } => "ActiveIdle",
+            State::UseToken { .. } => "UseToken",
+            State::ClaimToken { .. } => "ClaimToken",
+            State::AwaitDataResponse { .. } => "AwaitDataResponse",
+            State::PassToken { .. } => "PassToken",
+            State::CheckTokenPass { .. } => "CheckTokenPass",
+            State::AwaitStatusResponse { .. } => "AwaitStatusResponse",
+        }
+    }
+}
+
 #[cfg(test)]
 mod tests {
     use super::*;
